@@ -95,7 +95,7 @@ def run(tier):
     # ---- 2. correspondence
     corr = {'parse': 0, 'split': 0, 'logical': 0}
     if model_ok:
-        per_tag = 28 if tier == 'quick' else 300
+        per_tag = 16 if tier == 'quick' else 120
         by_tag = {}
         for i, c in enumerate(cases):
             by_tag.setdefault(c['tag'], []).append(i)
